@@ -3056,7 +3056,9 @@ def optimize_blockwise_fusion(expr):
                 seen.add(next._name)
 
                 group.append(next)
-                for dep_name in dependencies[next._name]:
+                # sorted: the iteration order of a set of strings depends on the
+                # hash seed, and the group order ends up in the name of ``Fused``
+                for dep_name in sorted(dependencies[next._name]):
                     dep = expr_mapping[dep_name]
 
                     stack_names = {s._name for s in stack}
